@@ -24,7 +24,8 @@ Init == idx \in 1..Len(Data) /\ done = FALSE
 Next == ~done /\ done' = TRUE /\ UNCHANGED idx
 Spec == Init /\ [][Next]_vars
 
-InitOf(d) == IF d.i[1] = "n" THEN d.i[2] ELSE 1
+(* i, n (and pl, the plain flag of find) are argument tokens, see Pattern!OptInteger *)
+PlOf(d) == IF "pl" \in DOMAIN d THEN d.pl ELSE <<"nil">>
 
 (* two iterators (same pattern, subjects s and s2) stepped alternately k    *)
 (* times each, by hand: neither disturbs the other                         *)
@@ -34,11 +35,11 @@ IterExp(d) ==
     IN IF a[1] = "err" THEN a ELSE IF b[1] = "err" THEN b ELSE <<"i", a[2], b[2]>>
 
 Exp(d) ==
-    CASE d.fn = "find" -> StrFind(d.s, d.p, InitOf(d))
-      [] d.fn = "match" -> StrMatch(d.s, d.p, InitOf(d))
+    CASE d.fn = "find" -> StrFindA(d.s, d.p, d.i, PlOf(d))
+      [] d.fn = "match" -> StrMatchA(d.s, d.p, d.i)
       [] d.fn = "gmatch" -> StrGMatch(d.s, d.p)
       [] d.fn = "gmatchiter" -> IterExp(d)
-      [] OTHER -> StrGSub(d.s, d.p, d.repl, d.n)
+      [] OTHER -> StrGSubA(d.s, d.p, d.repl, d.n)
 
 NoMatchOf(d) ==
     CASE d.fn \in {"find", "match"} -> <<"nil">>
@@ -47,7 +48,8 @@ NoMatchOf(d) ==
       [] OTHER -> <<"r", d.s, 0, <<>>>>
 
 Malformed(d) ==
-    \/ ~WellFormed(d.p, d.fn \notin {"gmatch", "gmatchiter"})
+    \/ (~WellFormed(d.p, d.fn \notin {"gmatch", "gmatchiter"})
+        /\ ~(d.fn = "find" /\ ToBoolean(PlOf(d))))      \* a plain find does not read the pattern
     \/ (d.fn = "gsub" /\ d.repl[1] = "s" /\ ReplDangling(d.repl[2], 1))
 
 Verdict ==
@@ -55,7 +57,8 @@ Verdict ==
       LET d == Data[idx]
           e == Exp(d)
           mal == Malformed(d)
-          ok == Admissible(e, d.o, NoMatchOf(d), mal)
+          ok == \/ Admissible(e, d.o, NoMatchOf(d), mal)
+                \/ (d.fn = "gsub" /\ GSubBigAlt(d.n) /\ d.o = NoMatchOf(d))
       IN PrintT("VERDICT " \o ToJson(
             IF ok THEN [id |-> d.id, ok |-> TRUE]
             ELSE [id |-> d.id, ok |-> FALSE, exp |-> e, mal |-> mal]))
